@@ -2163,9 +2163,16 @@ impl Iterator for ModuleGraphErrorIterator<'_, '_> {
           }
           ModuleEntryRef::Err(error) => {
             // ignore missing modules when following dynamic imports
-            // because they will be resolved in place
+            // because they will be resolved in place, which needs an
+            // importing module: a root or a configured import has none
             let should_ignore = follow_dynamic
-              && matches!(error.as_kind(), ModuleErrorKind::Missing { .. });
+              && matches!(
+                error.as_kind(),
+                ModuleErrorKind::Missing {
+                  maybe_referrer: Some(referrer),
+                  ..
+                } if !self.iterator.graph.imports.contains_key(&referrer.specifier)
+              );
             if !should_ignore {
               self
                 .next_errors
